@@ -1394,6 +1394,9 @@ impl Engine for RtSim {
             cv: Condvar::new(),
             run_id: RUN_COUNTER.fetch_add(1, Ordering::SeqCst),
         });
+        // ids are process-wide counters: restarted, so that a run does not depend on how many
+        // systems and arbiters earlier runs of this process created
+        actix_rt::verif::reset_ids();
         actix_rt::verif::install(Arc::new(SimHooks(sim.clone())));
         let done = Arc::new(AtomicBool::new(false));
         let (s2, c2, d2) = (sim.clone(), cfg.clone(), done.clone());
